@@ -144,6 +144,8 @@ class Sim:
         n = len(b)
         if n <= 1:
             return [b] if n else []
+        if self.max_pieces == 1:        # the raw write as CPython issues it
+            return [b]
         if self.max_pieces == 0:        # every byte boundary
             cuts = set(range(1, n))
         else:
